@@ -120,6 +120,7 @@ type c12Case struct {
 	EOFData  bool   `json:"eof_with_data"`
 	WriteCap int    `json:"write_cap,omitempty"`
 	Picks    []int  `json:"short_write_picks,omitempty"`
+	Enc      string `json:"content_encoding_header,omitempty"`
 }
 
 type c12Replay struct {
@@ -200,7 +201,7 @@ func init() {
 		var wire []byte
 		net := &rig.Targets{}
 		net.Serve = func(req *http.Request) rig.Answer {
-			return rig.Answer{Gzip: cur.Gzip, ContentType: "text/plain; version=0.0.4; charset=utf-8", BodyReader: func() io.ReadCloser {
+			return rig.Answer{Gzip: cur.Gzip, Encoding: cur.Enc, ContentType: "text/plain; version=0.0.4; charset=utf-8", BodyReader: func() io.ReadCloser {
 				return &chunkReader{data: wire, sched: cur.Sched, eofData: cur.EOFData}
 			}}
 		}
@@ -226,6 +227,7 @@ func init() {
 		r.DevBound = bound
 		var writeCap int
 		var slowWrite time.Duration
+		encHeader := ""
 		jobName, jobHash := "j1", uint64(1)
 		var wireFn func(data []byte) []byte // how a gzip body is laid out on the wire (default: one member)
 		one := func(name string, data []byte, gzipOn, assigned bool, sched []int, eofData bool, explore bool) {
@@ -238,7 +240,7 @@ func init() {
 			if !c.Mine(idx) {
 				return
 			}
-			cur = c12Case{Payload: name, Len: len(data), Gzip: gzipOn, Assigned: assigned, Sched: sched, EOFData: eofData, WriteCap: writeCap}
+			cur = c12Case{Payload: name, Len: len(data), Gzip: gzipOn, Assigned: assigned, Sched: sched, EOFData: eofData, WriteCap: writeCap, Enc: encHeader}
 			wire = data
 			if gzipOn {
 				wire = gz(data)
@@ -295,6 +297,9 @@ func init() {
 					kind := "read-split"
 					if x.DevUsed() > 0 {
 						kind = "short-write"
+					}
+					if strings.HasPrefix(name, "encoding-") {
+						kind = "content-encoding-not-recognised"
 					}
 					r.Violate("C12:bytes:"+kind, "byte-for-byte", fmt.Sprintf("%s gzip=%v chunks=%v: forwarded %d bytes, served %d, first difference at offset %d", name, gzipOn, sched, len(a), len(b), off), idx,
 						&c12Replay{Property: "C12", Clause: "byte-for-byte", Case: cs})
@@ -396,6 +401,16 @@ func init() {
 			}
 			slowWrite = 0
 		}
+		// ---- content codings are case-insensitive (RFC 7231), and x-gzip is an alias of gzip ----------------------
+		for _, enc := range []string{"GZIP", "Gzip", "x-gzip"} {
+			encHeader = enc
+			for _, name := range []string{"two-lines", "mix200", "70KiB"} {
+				for _, assigned := range []bool{true, false} {
+					one("encoding-"+enc+":"+name, payloads[name], true, assigned, nil, false, false)
+				}
+			}
+		}
+		encHeader = ""
 		// ---- a job with sample / label limits and dropping metric relabel rules: the relay is the same ----------
 		jobName, jobHash = "j2", 2
 		for _, name := range chk.SortedKeys(payloads) {
